@@ -78,7 +78,7 @@ func runSteps(t vkit.TB, steps []Cell, whole Case) (sums []string, classes []str
 			return sums, classes, false
 		}
 		c := steps[i]
-		vkit.Case(res.class, res.nontriv, fmt.Sprintf("%s|%s|%s|%s|%v|%v|%s|%s|%s|%s|%v|%s", c.Cmd, c.Identity, c.Claim, c.Target, c.AsResp, c.Pending, c.BodyTarget, c.When, c.MState, c.PrimeBy, c.FixedID, c.CodeState)+"|"+c.Again)
+		vkit.Case(res.class, res.nontriv, fmt.Sprintf("%s|%s|%s|%s|%v|%v|%s|%s|%s|%s|%v|%s", c.Cmd, c.Identity, c.Claim, c.Target, c.AsResp, c.Pending, c.BodyTarget, c.When, c.MState, c.PrimeBy, c.FixedID, c.CodeState)+"|"+c.Again+"|"+c.Index)
 		if res.nontriv {
 			vkit.Sample(res.class, map[string]any{"cell": c, "outcome": trunc(res.summary, 300)})
 		}
@@ -177,6 +177,15 @@ func cellsOf(sp *spec, id string, draw int) []Cell {
 			c.Again = how
 			out = append(out, c)
 		}
+	}
+	if sp.Object == "mapping" || sp.Object == "traffic" {
+		// the requester's per-client index holds the id of a mapping between two other clients
+		c := base
+		c.Index = "stale-id-reused"
+		if sp.Type != packet.MappingList && sp.Type != packet.ConfigGet {
+			c.Target = "reused-id"
+		}
+		out = append(out, c)
 	}
 	if !sp.Special {
 		// the same packet (type, CommandId, body) was sent a moment ago by a client that is entitled to an answer
@@ -353,7 +362,7 @@ func genCell(t *rapid.T) Cell {
 		Cmd:      rapid.SampledFrom(names).Draw(t, "cmd"),
 		Identity: rapid.SampledFrom([]string{"none", "challenged", "L", "T", "S", "S", "none"}).Draw(t, "identity"),
 		Claim:    rapid.SampledFrom([]string{"empty", "own", "T", "L", "bogus", "T"}).Draw(t, "claim"),
-		Target:   rapid.SampledFrom([]string{"victim", "victim", "victim", "own", "missing", "zero-listen", "zero-target"}).Draw(t, "target"),
+		Target:   rapid.SampledFrom([]string{"victim", "victim", "victim", "own", "missing", "zero-listen", "zero-target", "reused-id"}).Draw(t, "target"),
 		Str:      rapid.StringMatching(`[a-z0-9]{1,12}`).Draw(t, "str"),
 		N:        rapid.Int64Range(0, 1<<40).Draw(t, "n"),
 		TokenIs:  rapid.SampledFrom([]string{"id", "secret"}).Draw(t, "tokenIs"),
@@ -365,6 +374,7 @@ func genCell(t *rapid.T) Cell {
 	if !sp.Resp {
 		c.Again = rapid.SampledFrom([]string{"", "", "", "", "delete", "revoked", "expired", "inactive"}).Draw(t, "again")
 	}
+	c.Index = rapid.SampledFrom([]string{"", "", "", "", "stale-id-reused"}).Draw(t, "index")
 	c.PrimeBy = rapid.SampledFrom([]string{"", "", "L", "T"}).Draw(t, "primeBy")
 	c.FixedID = rapid.Bool().Draw(t, "fixedID")
 	c.CodeState = rapid.SampledFrom([]string{"", "", "", "activated-by-L"}).Draw(t, "codeState")
